@@ -24,6 +24,16 @@ C = {
          "PARTIAL: upper bound pi/2 (Jordan's inequality), the g2->1 limit and the Monte-Carlo agreement are checked numerically only", T_GEN_A),
  "C11": ("Empirical variance/deviation and their spectral-unit scaling proved on the regenerated table; M2=0 for one segment on the regenerated reducer; M2 = population variance checked against per-segment kernel calls.", "7/C11",
          "agreement with analytic deviations for Gaussian data is statistical (not proved)", T_GEN_A),
+ "C05": ("The dispatch of _lpsd_core/compute_single_bin is re-extracted from source on every run (T3) and checked exhaustively in Coq (48 paths: kernel of the order/mode/backend, argument order, omega from f, DFT-even Kaiser); cache transparency and band alignment proved; recorded kernel calls of real analyses compared with the model; independent reference on sampled bins.", "7/C05",
+         "window functions and the QR basis are rebuilt with the same library calls; the reference estimator is evaluated in extended precision on sampled bins", "Coq check of the dispatch table regenerated from source (T3) + recorder correspondence + reference oracle"),
+ "C07": ("Gain and negative-phase-for-lag theorems on the regenerated attribute table; per-segment gain/linearity lemmas on the kernels; Numba, CUDA and NumPy cross kernels proved equal to one definition (sign included).", "7/C07",
+         "PARTIAL: the d/L edge effect for arbitrary records is swept with a 0.35 rad allowance; detrend linearity for orders 0..2 is covered by the oracle", T_GEN_K),
+ "C08": ("Order-0 detrending proved to remove constants exactly on the regenerated Numba kernel; order -1 raw by definition; each channel detrended with its own coefficients (regenerated cross kernels = reference).", "7/C08",
+         "PARTIAL: orders 1,2 rely on the LAPACK QR contract, validated numerically every run and swept with trends of size 1 and 1e3 on 4 backends", T_GEN_K),
+ "C13": ("Shape normalisation model (Ingest.v) proved layout-independent and tied by vm_compute correspondence; sanitising proved idempotent/finite at binary64; guarded divisions on the regenerated table; caller bytes, zero-filled equality, finiteness on real runs.", "7/C13",
+         "NumPy aliasing is observed not modelled; F11 (overflow/underflow of XX*YY for |x| ~ 1e120 / 1e-150) is a recorded finding", T_HAND),
+ "C14": ("Any interleaving of a loop writing only slot j is deterministic (Race theorem) and T1's effect summaries show all 12 parallel kernels have that form; plan-cache and attribute-cache histories proved equivalent to fresh objects; thread/chunk sweep, random histories and access orders on the implementation.", "7/C14",
+         "Numba's scheduler and memory model are not modelled (theorem is about the effect summary extracted from source)", "Coq theorems (schedule/history independence) + effect summary regenerated from source + sweeps"),
  "C20": ("asd^2=psd, ps=psd*ENBW, cs=csd*ENBW, cf=|Hxy|, cf_db, deg/rad, conjugates, aliases and the exact None table proved on the regenerated attribute table; interpolation, DataFrame export, copy/pickle by the direct oracle.", "7/C20",
          "interpolation / pandas export / Python copy protocol are exercised on real results, not modelled", T_GEN_A),
 }
